@@ -179,6 +179,14 @@ func (x *Exec) Choices() []int {
 // with at most bound preemptions. run must create a fresh world and call Run
 // with the given prefix; check is called for every complete execution.
 func Explore(bound int, run func(prefix []int) (*Exec, error), check func(x *Exec)) (execs int, err error) {
+	return ExploreSharded(bound, run, check, nil)
+}
+
+// ExploreSharded is Explore where only the top-level subtrees (first deviation
+// from the default schedule at point i with alternative alt) accepted by mine
+// are explored; the default execution itself is always run (and checked only
+// if mine(-1,0) is true). Used to split one scenario over worker processes.
+func ExploreSharded(bound int, run func(prefix []int) (*Exec, error), check func(x *Exec), mine func(i, alt int) bool) (execs int, err error) {
 	var rec func(prefix []int, parent *Exec) error
 	rec = func(prefix []int, parent *Exec) error {
 		x, err := run(prefix)
@@ -194,8 +202,10 @@ func Explore(bound int, run func(prefix []int) (*Exec, error), check func(x *Exe
 				}
 			}
 		}
-		execs++
-		check(x)
+		if parent != nil || mine == nil || mine(-1, 0) {
+			execs++
+			check(x)
+		}
 		for i := len(prefix); i < len(x.Points); i++ {
 			p := x.Points[i]
 			cost := x.PreemptionsBefore(i)
@@ -206,6 +216,9 @@ func Explore(bound int, run func(prefix []int) (*Exec, error), check func(x *Exe
 				continue
 			}
 			for alt := 1; alt < len(p.Enabled); alt++ {
+				if parent == nil && mine != nil && !mine(i, alt) {
+					continue
+				}
 				np := append(append([]int{}, x.Choices()[:i]...), alt)
 				if err := rec(np, x); err != nil {
 					return err
